@@ -18,6 +18,7 @@ VARIABLES l, inc, sid, offered, drained
 mvars == <<obsVars, l, inc, sid, offered, drained>>
 
 Final(o) == o \in {"ok", "perm", "fail"}
+Universe == {"a", "b", "c", "d", "e", "f"}
 
 MInit == ObsInit /\ l = 1 /\ inc = 0 /\ sid = "" /\ offered = {} /\ drained = FALSE
 
@@ -35,11 +36,16 @@ MOfferEnd == /\ Is("offer_end")
              /\ IF Ev.ok THEN ObsAccept(Ev.req) ELSE UNCHANGED accepted
              /\ UNCHANGED <<handed, finalised, inc, sid, drained>>
 
-MPush == /\ Is("push") /\ ObsHand(Ev.req, Ev.inc)
+\* a hand-off of something that is not one of the script's requests (e.g. an empty request decoded from a missing
+\* body) is reported, but it is not what C01 is about: the run continues and the loss clauses are still decided
+MPush == /\ Is("push")
+         /\ IF Ev.req \in Universe THEN ObsHand(Ev.req, Ev.inc)
+            ELSE /\ UNCHANGED handed
+                 /\ PrintT(<<"BEH", ToJson([script |-> sid, kind |-> "phantom", owed |-> {Ev.req}, inc |-> Ev.inc])>>)
          /\ UNCHANGED <<accepted, finalised, inc, sid, offered, drained>>
 
 MPushEnd == /\ Is("push_end")
-            /\ IF Final(Ev.outcome) THEN ObsFinal(Ev.req) ELSE UNCHANGED finalised
+            /\ IF Final(Ev.outcome) /\ Ev.req \in Universe THEN ObsFinal(Ev.req) ELSE UNCHANGED finalised
             /\ UNCHANGED <<accepted, handed, inc, sid, offered, drained>>
 
 \* the real restart has drained: everything owed must have been handed over and finalised
@@ -63,7 +69,6 @@ MSpec == MInit /\ [][MNext]_mvars
 \* hand-offs only of requests that were offered; "offered" is only known at offer_end, so a
 \* request whose enqueue call died half-way may legitimately be handed over later: use the script's
 \* request universe instead
-Universe == {"a", "b", "c", "d", "e", "f"}
 InvNoPhantom == NoPhantom(Universe)
 \* AtLeastOnce as a proper invariant is reported through the verdict lines above (one per script);
 \* the state predicate is still evaluated at every step:
